@@ -264,7 +264,7 @@ def rand_step(rng, H, W):
 def run(ctx):
     install_invariant()
     rng = ctx.rng
-    for _ in range(ctx.share(6000 if ctx.quick else 250000)):
+    for _ in range(ctx.share(6000 if ctx.quick else 800000)):
         h, w = rng.randint(0, 4), rng.randint(0, 5)
         kw = rng.choice([{}, {}, {"bg": "blue"}, {"fg": "red", "bold": True}])
         ctor_args = rng.choice([[], [], [], ["blue"], ["on_red", "bold"], ["green", "on_blue"]]) if not kw else []
@@ -277,7 +277,7 @@ def run(ctx):
         run_case(ctx, {"shape": [h, w], "ctor_kwargs": kw, "ctor_args": ctor_args, "steps": steps})
         ctx.count("histories")
     recent_texts = ["ab", "status"]
-    for _ in range(ctx.share(800 if ctx.quick else 40000)):
+    for _ in range(ctx.share(800 if ctx.quick else 150000)):
         rows = [rand_row(rng, rng.randint(0, 5), kinds="both") for _ in range(rng.randint(0, 4))]
         # the same text now and then as a plain str and as a FmtStr (styled or not), within one
         # call and across calls
